@@ -162,6 +162,51 @@ def rule_table_qasm(ctx: Ctx) -> None:
                      func=f.name, construct=f"qasm: wrapper member name '{gname}' is not a single letter")
 
 
+def rule_instance_info(ctx: Ctx) -> None:
+    """state.class-store: what a constructor computes from its arguments belongs to the instance.  An `__init__` that stores such a value on
+    the class (`type(self).x = ...`, `self.__class__.x = ...`, `<ClassName>.x = ...`) makes every instance share the value of whichever
+    instance was built last: every OneQubitGateWrapper would export with the openQASM body of the most recent wrapper, and the export of an
+    unchanged circuit would change when an unrelated wrapper is created (export is no longer deterministic)."""
+    repo = ctx.repo
+    m = repo.module(OPS)
+    n = 0
+    for ci in [c for lst in repo.classes.values() for c in lst if c.module.rel == OPS]:
+        init = ci.methods().get("__init__")
+        if init is None:
+            continue
+        n += 1
+        params = set(func_params(init)[1:])
+        for a in [x for x in ast.walk(init) if isinstance(x, ast.Assign)]:
+            for t in a.targets:
+                if isinstance(t, ast.Attribute):
+                    recv = norm(t.value)
+                    if recv in ("type(self)", "self.__class__", ci.name) and any(isinstance(x, ast.Name) and x.id in params for x in ast.walk(a.value)):
+                        ctx.touch(m, init)
+                        ctx.fail("state.class-store", m, a,
+                                 f"{ci.name}.__init__ stores `{short(a.value, 60)}` (computed from its arguments) on the class (`{short(t)}`): all instances then share the "
+                                 f"value of the instance built last", func=f"{ci.name}.__init__", construct=f"{ci.name}.__init__: per-instance value stored on the class")
+    if n == 0:
+        raise AnalysisError("state.class-store: no constructor found in ops.py")
+    ctx.ok_abstract("state.class-store", f"{n} constructors of operation classes scanned")
+    # the wrapper's composite gate: the table return is taken exactly when the composed name is already a defined gate
+    oq = repo.module(OQ)
+    fn = repo.anchor(OQ, "single_qubit_wrapper_info")
+    ctx.touch(oq, fn)
+    rets = [i for i in ast.walk(fn) if isinstance(i, ast.If) and any(isinstance(r, ast.Return) and isinstance(r.value, ast.Subscript) for r in i.body)]
+    if len(rets) != 1:
+        raise AnalysisError("single_qubit_wrapper_info: the early return of an already defined gate was not found")
+    r = next(x for x in rets[0].body if isinstance(x, ast.Return))
+    tbl, key = norm(r.value.value), norm(r.value.slice)
+    t = rets[0].test
+    if isinstance(t, ast.Compare) and len(t.ops) == 1 and isinstance(t.ops[0], ast.In) and norm(t.left) == key and norm(t.comparators[0]) in (tbl, f"{tbl}.keys()"):
+        ctx.ok("state.class-store", oq, t, what="composite name looked up in the table of defined gates by membership")
+    else:
+        ctx.fail("table.qasm", oq, t,
+                 f"single_qubit_wrapper_info returns `{short(r.value)}` under `{short(t)}` instead of `{key} in {tbl}`: a composed name that is a defined gate but fails this "
+                 f"test ('sdg' has three letters) is declared a second time, as a gate calling itself, which a standard openQASM reader rejects",
+                 func="single_qubit_wrapper_info", construct="single_qubit_wrapper_info: defined-gate test is not a membership test")
+
+
 def rule_declares_used(ctx: Ctx) -> None:
     """qasm.declares-used: a multi-line idiom (`measure ...; if (c==1) <g> <target>;`) uses a one-qubit gate <g> that openQASM 2.0 only knows
     when it was declared: the declaration the info function records (third argument of OpenQASMInfo) is borrowed from the info function of
@@ -819,6 +864,7 @@ def run(ctx: Ctx) -> None:
     rule_table_json(ctx)
     rule_table_qasm(ctx)
     rule_declares_used(ctx)
+    rule_instance_info(ctx)
     rule_wrapper_export_order(ctx)
     rule_derived_fields(ctx)
     rule_export_determinism(ctx)
@@ -828,6 +874,8 @@ def run(ctx: Ctx) -> None:
 
 
 KNOCKOUTS = [
+    Knockout("wrapper-info-stored-on-the-class", OPS, sub_once("        self._openqasm_info = oq_lib.single_qubit_wrapper_info(operations)\n", "        type(self)._openqasm_info = oq_lib.single_qubit_wrapper_info(operations)\n"), "state.class-store", "stored on the class"),
+    Knockout("defined-gate-test-by-name-length", OQ, sub_once("    if gate_name in gate_name_dict:", "    if len(gate_name) <= 1:"), "table.qasm", "membership test"),
     Knockout("classical-cz-declares-x", OQ, sub_once("    definition = sigma_z_info().definitions[0]\n\n    def usage(q_reg, q_reg_type, c_reg):\n        return (\n            f\"measure {q_reg_type[0]}{q_reg[0]}[0] -> c{c_reg[0]}[0]; \\n\"\n            f\"if (c{c_reg[0]}==1) z", "    definition = sigma_x_info().definitions[0]\n\n    def usage(q_reg, q_reg_type, c_reg):\n        return (\n            f\"measure {q_reg_type[0]}{q_reg[0]}[0] -> c{c_reg[0]}[0]; \\n\"\n            f\"if (c{c_reg[0]}==1) z"), "qasm.declares-used", "ClassicalCZ"),
     Knockout("wrapper-info-skips-repeated-gates", OQ, sub_once("        gate_name_dict[oq_info.gate_name] = oq_info\n        if (\n            oq_info.gate_name == \"\"\n        ):  # this is a gate we don't actually need (effectively identity)\n            continue\n", "        if oq_info.gate_name in gate_name_dict:\n            continue\n        gate_name_dict[oq_info.gate_name] = oq_info\n"), "qasm.per-operation", "skipped for another reason"),
     Knockout("json-wrapper-drops-identities", "graphiq/circuit/circuit_dag.py", sub_once("                    if name:\n                        op_list.append(name)", "                    if name and g is not ops.Identity:\n                        op_list.append(name)"), "json.wrapper-complete", "op_list filtered"),
